@@ -481,6 +481,7 @@ def sessions(case, out):
             cur = None
         elif w[0] == "open":
             if line.startswith("ok"):
+                d = dict(d, rfmt=kv(line)[1].get("fmt", ""))
                 cur = (data, d, [])
                 res.append(cur)
             else:
@@ -792,7 +793,9 @@ def _monitor_c04(case, out):
     byfile = {}
     for data, od, items in sessions(case, out):
         abc = od.get("abc", "text")
-        fasta = od.get("fmt") == "fasta" and not od.get("nooff")
+        if od.get("rfmt", "1").isdigit() and int(od.get("rfmt", "1")) >= 100:
+            continue          # autodetection handed the file to the alignment readers: a different reading of the bytes, not compared
+        fasta = (od.get("fmt") == "fasta" or od.get("rfmt") == "1") and not od.get("nooff")
         nooff = bool(od.get("nooff"))
         items = [(op, d, line) for op, d, line in items if line != "known-region"] if not any(
             line == "known-region" and op == "readwin" for op, d, line in items) else [x for x in items if x[0] != "readwin"]
@@ -862,7 +865,8 @@ def _monitor_c04(case, out):
     return None
 
 
-C04_THEOREMS = ["fwd_first_window", "fwd_windows_tile", "rev_first_window", "rev_windows_tile", "rev_offset_brute_force"]
+C04_THEOREMS = ["fwd_first_window", "fwd_windows_tile", "rev_first_window", "rev_windows_tile", "rev_offset_brute_force",
+                "addbuf_moves_only_bpos", "loadbuf_ignores_bpos_partial", "nextchar_block_size_independent_partial"]
 C02_THEOREMS = ["loadbuf_total", "nextchar_total", "nextchar_no_fault", "seebuf_total", "inmaps_agree"]
 C07_THEOREMS = ["findSubseq_absent", "findSubseq_out_of_range", "fetchSubseq_absent", "fetchSubseq_start_out_of_range", "findSubseq_cases",
                 "lands_on_start_line", "lands_on_start_residue", "lands_on_start_none", "bplrpl_sound_partial", "bplrpl_unsound_single_line", "bplrpl_unsound_at_init"]
